@@ -142,7 +142,7 @@ SPEC("pane.converters", "TupleConverter.collect_errors",
 SPEC("pane.converters", "TupleConverter.into_data",
      shapes={"val": "seq", "self.converters": "seq"},
      ensures=[(lambda self, val, result: slen(result) == ite(slen(val) < slen(self.converters), slen(val), slen(self.converters))
-               and forall(range(slen(result)), lambda j: sat(result, j) == ser(sat(self.converters, j), sat(val, j))), ["C05"], "ser")])
+               and forall(range(slen(result)), lambda j: sat(result, j) == ser(sat(self.converters, j), sat(val, j))), ["C05", "C06"], "ser")])
 
 # ---------------------------------------------------------------------------------------------
 # SequenceConverter (homogeneous sequences / sets)
